@@ -114,6 +114,16 @@ int main(int argc, char **argv) {
 '''
 
 
+# wrapper script: `run.py PROGRAM ARGS...` - the program reaches the command line as a path string only
+RUN_PY = r'''#!/usr/bin/env python3
+import os, sys
+try:
+    os.execv(sys.argv[1], sys.argv[1:])
+except OSError as e:
+    sys.exit('run.py: %s: %s' % (sys.argv[1], e.strerror))
+'''
+
+
 class Export:
     """What a block offers to later consumers: a declare_dependency variable, the functions reachable by
     linking it, the (header, macro) pairs usable by a target that lists it in dependencies:."""
@@ -142,10 +152,12 @@ class Proj:
         self.force: T.Dict[str, T.Any] = {}
         self.has_cpp = HAS_CPP
         self.cur = ''              # prefix of the block being generated (b0, b1, ...)
+        # second stream for choices added in later waves: the projects of earlier waves keep their shape
+        self.rng2: random.Random = rng
 
-    def pick(self, name: str, choices: T.Sequence[T.Any]) -> T.Any:
+    def pick(self, name: str, choices: T.Sequence[T.Any], aux: bool = False) -> T.Any:
         """Seeded choice that a directed project can pin (the rng is consumed either way)."""
-        v = self.rng.choice(list(choices))
+        v = (self.rng2 if aux else self.rng).choice(list(choices))
         base = name.rsplit('.', 1)[0] if name.rsplit('.', 1)[-1].isdigit() else name   # 'libs.kind.2' falls back to 'libs.kind'
         # 'b1:pch.lang' pins the choice for the block with prefix b1 only (two blocks of one kind in a project)
         for key in (f'{self.cur}:{name}', f'{self.cur}:{base}', name, base):
@@ -161,8 +173,8 @@ class Proj:
             self.feat('include-file-suffix:' + sfx)
         return sfx
 
-    def flip(self, name: str, prob: float) -> bool:
-        v = self.rng.random() < prob
+    def flip(self, name: str, prob: float, aux: bool = False) -> bool:
+        v = (self.rng2 if aux else self.rng).random() < prob
         return bool(self.force.get(f'{self.cur}:{name}', self.force.get(name, v)))
 
     # ---- helpers -----------------------------------------------------------------
@@ -510,8 +522,22 @@ def blk_built_tool(P: Proj, p: str, d: str) -> None:
     if P.flip('built_tool.ct', 0.7):
         n = p + 'k'
         P.val['V_' + n] = P.deffile(d, n) + bias
-        P.emit(d, f"{p}_hk = custom_target('{p}_hk', input: '{n}.def', output: '{n}.h',\n"
-                  f"  command: [{p}_tool, '{n}', '@OUTPUT@', '@INPUT@'])")
+        # how the step reaches its program: as an object of the command line (the command carries the edge), or only
+        # as a PATH STRING (prog.full_path() handed to a wrapper script) - a string carries no edge, so the program is
+        # named in depends:, which accepts build targets as well as program objects (find_program() results)
+        ct_how = P.pick('built_tool.ct_how', ['command', 'command', 'depends-path'], aux=True)
+        if ct_how == 'command':
+            P.emit(d, f"{p}_hk = custom_target('{p}_hk', input: '{n}.def', output: '{n}.h',\n"
+                      f"  command: [{p}_tool, '{n}', '@OUTPUT@', '@INPUT@'])")
+        else:
+            extp = P.flip('built_tool.depends_external', 0.4, aux=True)
+            deps = f'[{p}_tool, py]' if extp else f'{p}_tool'
+            P.emit(d, f"{p}_hk = custom_target('{p}_hk', input: '{n}.def', output: '{n}.h', depends: {deps},\n"
+                      f"  command: [py, runw, {p}_tool.full_path(), '{n}', '@OUTPUT@', '@INPUT@'])")
+            P.feat('depends-holds-program-path-in-command',
+                   'depends-holds:' + ('local-program' if 'built-tool-override_find_program' in P.features else 'executable'))
+            if extp:
+                P.feat('depends-holds:external-program')
         hms.append((n + '.h', 'V_' + n))
         srcs.append(f'{p}_hk')
         P.ntargets += 1
@@ -1066,6 +1092,53 @@ def blk_same_name(P: Proj, p: str, d: str) -> None:
     P.ntargets += 4
 
 
+def blk_bootstrap(P: Proj, p: str, d: str) -> None:
+    """Bootstrap layout: a checked-in STUB header in the source tree and a GENERATED header with the same relative
+    path in the build tree (made by a tool that is itself compiled against the stub).  The stub is known to meson as
+    a file of the source tree (listed in the sources of the earlier bootstrap tool / as files() object / as
+    depend_files:); the generated twin reaches its consumers through declare_dependency(sources:) or directly in
+    sources.  Consumers live in other directories and find the header through include_directories('.') of the twin's
+    directory (build dir first, then source dir): a consumer compiled before the generating step silently gets the
+    stub, so its edges must name the GENERATED file."""
+    rng = P.rng2
+    P.feat('bootstrap-twin')
+    vd = f'{p}v'                   # directory of the twins, directly under the root; holds no consumer
+    n = f'{p}ver'
+    k = rng.randint(1, 9)
+    stubv = -100000 - rng.randint(1, 999)
+    P.files[P.path(vd, f'{n}.h')] = (f'/* checked-in stub, only good enough to bootstrap {p}mk */\n'
+                                     f'#ifndef H_{n}\n#define H_{n}\n#define V_{n} ({stubv})\n#define K_{n} ({k})\n#endif\n')
+    P.files[P.path(vd, f'{p}mk.c')] = CTOOL_C % {'bias_decl': f'#include "{n}.h"', 'bias_expr': f'K_{n}'}
+    stub_in = P.pick('bootstrap.stub_in', ['tool-sources', 'tool-sources', 'tool-files', 'depend_files'], aux=True)
+    native = ', native: true' if P.flip('bootstrap.native', 0.5, aux=True) else ''
+    P.feat('bootstrap-twin:stub-in-' + stub_in)
+    extra = {'tool-sources': f", '{n}.h'", 'tool-files': f", files('{n}.h')", 'depend_files': ''}[stub_in]
+    P.emit(vd, f"{p}_mk = executable('{p}mk', '{p}mk.c'{extra}{native})")
+    v = P.deffile(vd, n) + k
+    P.val['V_' + n] = v
+    dkw = f", depend_files: files('{n}.h')" if stub_in == 'depend_files' else ''
+    if P.flip('bootstrap.by_default', 0.6, aux=True):
+        # part of `all` whether or not a consumer pulls it in (generated headers that are also installed / shipped)
+        dkw += ', build_by_default: true'
+        P.feat('bootstrap-twin:build_by_default')
+    P.emit(vd, f"{p}_verh = custom_target('{p}_verh', input: '{n}.def', output: '{n}.h',\n"
+               f"  command: [{p}_mk, '{n}', '@OUTPUT@', '@INPUT@']{dkw})")
+    P.emit(vd, f"{p}_vinc = include_directories('.')")
+    via = P.pick('bootstrap.via', ['dep-sources', 'dep-sources', 'direct'], aux=True)
+    P.feat('bootstrap-twin:via-' + via, 'declare_dependency-sources', 'built-tool')
+    hm = (f'{n}.h', 'V_' + n)
+    P.csrc(d, f'{p}_a.c', p + '_a', [hm], [], allow_soft=False)
+    if via == 'dep-sources':
+        P.emit(vd, f"{p}_hdep = declare_dependency(sources: {p}_verh, include_directories: {p}_vinc)")
+        P.emit(d, f"{p}_lib = {_libfn(P.rng2)}('{p}l', '{p}_a.c', dependencies: {p}_hdep)")
+        P.emit(d, f"{p}_dep = declare_dependency(link_with: {p}_lib, dependencies: {p}_hdep)")
+    else:
+        P.emit(d, f"{p}_lib = {_libfn(P.rng2)}('{p}l', '{p}_a.c', {p}_verh, include_directories: {p}_vinc)")
+        P.emit(d, f"{p}_dep = declare_dependency(link_with: {p}_lib, sources: {p}_verh, include_directories: {p}_vinc)")
+    P.ntargets += 3
+    P.exports.append(Export(f'{p}_dep', [f'f_{p}_a'], [hm]))
+
+
 BLOCKS = ['ct_header', 'generator', 'ct_chain', 'built_tool', 'libs', 'subproject', 'link_depends',
           'exe_capture', 'gensrc_inc', 'genlist_chain', 'ct_object', 'preprocess', 'configure_mix', 'pch', 'same_name']
 
@@ -1076,6 +1149,7 @@ def generate(seed: T.Any, index: int = 0, force_blocks: T.Optional[T.Sequence[st
     'blocks': [...], 'ntargets': n, 'key': structural key}."""
     rng = random.Random(f'c05:{seed}:{index}')
     P = Proj(rng)
+    P.rng2 = random.Random(f'c05x:{seed}:{index}')
     P.force = dict(force or {})
     default_library = P.pick('default_library', ['static', 'static', 'shared', 'both'])
     buildtype = rng.choice(['plain', 'plain', 'debug', 'release'])
@@ -1091,15 +1165,19 @@ def generate(seed: T.Any, index: int = 0, force_blocks: T.Optional[T.Sequence[st
             "ar = find_program('ar')",
             "gen = files('tools/gen.py')",
             "gen2 = files('tools/gen2.py')",
+            "runw = files('tools/run.py')",
             "gen_path = meson.project_source_root() / 'tools' / 'gen.py'",
             "root_inc = include_directories('.')"]
     P.files['tools/gen.py'] = GEN_PY
     P.files['tools/gen2.py'] = GEN2_PY
+    P.files['tools/run.py'] = RUN_PY
     if force_blocks is not None:
         chosen = list(force_blocks)
     else:
         nblocks = rng.choice([1, 2, 2, 3, 3, 4])
         chosen = [rng.choice(BLOCKS) for _ in range(nblocks)]
+        # blocks added in later waves replace a drawn block now and then (second stream: earlier shapes are kept)
+        chosen = [('bootstrap' if P.rng2.random() < 0.08 else b) for b in chosen]
     for bi, b in enumerate(chosen):
         if P.ntargets >= 10 and bi > 0:
             chosen = chosen[:bi]
@@ -1138,6 +1216,8 @@ def generate(seed: T.Any, index: int = 0, force_blocks: T.Optional[T.Sequence[st
             blk_pch(P, p, d)
         elif b == 'same_name':
             blk_same_name(P, p, d)
+        elif b == 'bootstrap':
+            blk_bootstrap(P, p, d)
         else:
             raise ValueError(b)
         if d:
